@@ -1,16 +1,72 @@
 (* C16 -- Operations are pure: inputs never modified, results independent of history.
-   Partial by nature (see DESIGN.md): a functional model has no heap, so what a theorem can carry is
-   (1) the value computed by shift/pad does not depend on working in place or on a copy, and copying
-   is the identity on canonical buffers; (2) in the effect model of theories/Effects.v the receiver of
-   a copying call is returned unchanged and the receiver of an in-place call is the result; (3) a
-   context manager answers every call of any history exactly as a fresh manager does.  That the real
-   Python objects are untouched is established by the harness (snapshots of every reachable Buffer
-   before/after each call, long-lived manager against fresh ones), not by these theorems. *)
+   Two models.  (I) theories/BufferHeap.v: the Buffer class as MUTABLE OBJECTS -- a heap of records, every method written
+   with the attribute reads, attribute assignments, constructor calls and inner method calls the Python source has, returning
+   references.  About it the theorems below say, for ALL heaps, references, arguments and outcomes (exceptions included):
+   an operation that is not explicitly in place only appends new objects to the heap (no existing object changes in any
+   attribute: bits, length, padding side, padding length), an in-place operation changes at most its receiver, the object
+   returned by an operation that is not in place is a new one (never an operand), programs of any length inherit this, and
+   every method computes exactly the value the value-level model Buffer.v computes -- also when operands are the same object.
+   This model is run against the implementation step by step (harness/bufheap.py: outcome, identity of the returned object,
+   attributes of every object held).  (II) the value-level statements kept from before: the value computed by shift/pad does
+   not depend on working in place or on a copy, copying is the identity, a context manager answers every call of any history
+   as a fresh one does (true by construction of the functional model: ContextManager methods assign nothing).
+   Still partial by nature above the Buffer class: that rules, contexts, descriptors and module-level tables of the real
+   Python process are untouched is established by the harness (snapshots, long-lived against fresh objects), see DESIGN.md. *)
 From Coq Require Import ZArith List Bool.
-From MS Require Import PyBase Buffer Bits ByteFacts BufferAbs BufferSpec Schc Effects.
+From MS Require Import PyBase Buffer Bits ByteFacts BufferAbs BufferSpec Schc Effects BufferHeap BufferHeapSpec.
 Import ListNotations.
 Open Scope Z_scope.
 
+(* ---- (I) objects ------------------------------------------------------------------------------ *)
+Theorem c16_pure_frame o h r h' : hop_pure o = true -> hstep o h = (r, h') -> exists ext, h' = h ++ ext.
+Proof. exact (hstep_pure_frame o h r h'). Qed.
+Theorem c16_pure_keeps o h r h' y : hop_pure o = true -> hstep o h = (r, h') -> (y < length h)%nat -> nth_error h' y = nth_error h y.
+Proof. exact (hstep_pure_keeps o h r h' y). Qed.
+Theorem c16_inplace_frame o r h x h' : hop_receiver o = Some r -> hstep o h = (x, h') ->
+  (length h <= length h')%nat /\ forall y, (y < length h)%nat -> y <> r -> nth_error h' y = nth_error h y.
+Proof. exact (hstep_inplace_frame o r h x h'). Qed.
+Theorem c16_pure_fresh o h x h' : hop_pure o = true -> hstep o h = (Ok x, h') ->
+  fresh_out h x /\ (match x with ORef y => (y < length h')%nat | ORefs l => Forall (fun y => (y < length h')%nat) l /\ NoDup l | _ => True end).
+Proof. exact (hstep_pure_fresh o h x h'). Qed.
+Theorem c16_inplace_result o r h x h' : hop_receiver o = Some r -> hstep o h = (Ok (ORef x), h') ->
+  x = r \/ ((length h <= x)%nat /\ exists sd, o = HPad r sd true).
+Proof. exact (hstep_inplace_result o r h x h'). Qed.
+Theorem c16_program_pure ops h : forallb hop_pure ops = true -> Forall (fun rh => extends h (snd rh)) (hrun ops h).
+Proof. exact (hrun_pure_frame ops h). Qed.
+Theorem c16_program_frame ops h y : (y < length h)%nat -> Forall (fun o => hop_receiver o <> Some y) ops ->
+  Forall (fun rh => nth_error (snd rh) y = nth_error h y) (hrun ops h).
+Proof. exact (hrun_frame ops h y). Qed.
+(* the heap methods compute what Buffer.v computes (operands may be one and the same object) *)
+Theorem c16_add_refines h l r lb rb : nth_error h l = Some lb -> nth_error h r = Some rb ->
+  match h_add l r h with
+  | (Ok x, h') => exists v, b_add lb rb = Ok v /\ nth_error h' x = Some v
+  | (Exc e, _) => b_add lb rb = Exc e
+  | (Diverge, _) => b_add lb rb = Diverge
+  end.
+Proof. exact (h_add_refines h l r lb rb). Qed.
+Theorem c16_setitem_refines r s e v h b vb : nth_error h r = Some b -> nth_error h v = Some vb ->
+  match h_setitem r s e v h with
+  | (Ok x, h') => x = r /\ exists w, b_setitem b s e vb = Ok w /\ nth_error h' r = Some w
+  | (Exc x, _) => b_setitem b s e vb = Exc x
+  | (Diverge, _) => b_setitem b s e vb = Diverge
+  end.
+Proof. exact (h_setitem_refines r s e v h b vb). Qed.
+Theorem c16_value_refines r h b : nth_error h r = Some b -> fst (h_value r h) = b_value b /\ extends h (snd (h_value r h)).
+Proof. exact (h_value_refines r h b). Qed.
+Theorem c16_chunks_refines r n p h b : nth_error h r = Some b ->
+  match h_chunks r n p h with
+  | (Ok l, h') => extends h h' /\ exists vs, b_chunks b n p = Ok vs /\ Forall2 (fun x v => nth_error h' x = Some v) l vs
+  | (Exc e, h') => extends h h' /\ b_chunks b n p = Exc e
+  | (Diverge, h') => extends h h' /\ b_chunks b n p = Diverge
+  end.
+Proof. exact (h_chunks_refines r n p h b). Qed.
+(* pad in place on a buffer of the other side: the receiver is assigned AND a second object with the same attributes is returned *)
+Example c16_pad_inplace_ex : hstep (HPad 0%nat LEFT true) [mkbuf [160] 3 RIGHT 5] = (Ok (ORef 1%nat), [mkbuf [5] 3 LEFT 5; mkbuf [5] 3 LEFT 5]).
+Proof. vm_compute. reflexivity. Qed.
+Example c16_alias_ex : fst (hstep (HAdd 0%nat 0%nat) [mkbuf [160] 3 RIGHT 5]) = Ok (ORef 1%nat) /\ b_add (mkbuf [160] 3 RIGHT 5) (mkbuf [160] 3 RIGHT 5) = Ok (mkbuf [180] 6 RIGHT 2).
+Proof. vm_compute. split; reflexivity. Qed.
+
+(* ---- (II) values ------------------------------------------------------------------------------- *)
 Theorem c16_shift_inplace_irrelevant b s : canon b -> b_shift b s true = b_shift b s false.
 Proof. exact (shift_inplace_irrelevant b s). Qed.
 Theorem c16_pad_inplace_irrelevant b sd : canon b -> b_pad b sd true = b_pad b sd false.
@@ -31,6 +87,17 @@ Proof. exact (run_app ct m h1 h2). Qed.
 Example c16_ex : eff_shift (mkbuf [171; 192] 10 RIGHT 6) 3 false = Ok (mkbuf [171; 192] 10 RIGHT 6, mkbuf [170] 7 RIGHT 1).
 Proof. vm_compute. reflexivity. Qed.
 
+Print Assumptions c16_pure_frame.
+Print Assumptions c16_pure_keeps.
+Print Assumptions c16_inplace_frame.
+Print Assumptions c16_pure_fresh.
+Print Assumptions c16_inplace_result.
+Print Assumptions c16_program_pure.
+Print Assumptions c16_program_frame.
+Print Assumptions c16_add_refines.
+Print Assumptions c16_setitem_refines.
+Print Assumptions c16_value_refines.
+Print Assumptions c16_chunks_refines.
 Print Assumptions c16_shift_inplace_irrelevant.
 Print Assumptions c16_pad_inplace_irrelevant.
 Print Assumptions c16_copy_identity.
